@@ -434,6 +434,10 @@ func (vc *FnVC) storePtr(st *State, p string, t types.Type, v string) {
 func (vc *FnVC) doUnOp(x *ssa.UnOp, st *State) {
 	switch x.Op {
 	case token.MUL: // load
+		if c, ok := vc.constCapture[x.X]; ok {
+			vc.vals[x] = Val{k: vTerm, tv: c}
+			return
+		}
 		a := vc.val(x.X)
 		t := x.Type()
 		var s string
